@@ -24,7 +24,7 @@ META = {
     "encoded": ["csr.event.EventMonitor.__init__", "csr.event.EventMonitor.elaborate", "event.Monitor.elaborate",
                 "csr.bus.Multiplexer.elaborate", "csr.reg.Register.elaborate", "csr.bus.Decoder.add/elaborate",
                 "amaranth.lib.wiring.connect (attachment)"],
-    "also": 'read data zero unless the monitor was read in the previous cycle (what sharing a decoder with other subordinates needs); 1-3 bit wide buses with 3-7 events (many-chunk, padded, non-power-of-two registers) incl. a reset-rooted write-enable / read-enable / read-pending window; second pending read issued in the clear cycle; register capacity obligation',
+    "also": 'monitor as the third window of a decoder next to two other register banks; read data zero unless the monitor was read in the previous cycle (what sharing a decoder with other subordinates needs); 1-3 bit wide buses with 3-7 events (many-chunk, padded, non-power-of-two registers) incl. a reset-rooted write-enable / read-enable / read-pending window; second pending read issued in the clear cycle; register capacity obligation',
     "bounds": "0,1,3,8,9,17 events at data width 8, 0,5,16,17 at 16 (thorough adds 2,7,16,24 / 31,32,33); alignment "
               "0-2; seeded trigger-mode mixes; three attachments; windows: enable write + read-back, enable write + "
               "pending read + line, pending read / write-one-to-clear / read with source inputs free in every cycle "
@@ -50,6 +50,8 @@ def configs(tier, seed):
                         continue
                     out.append({"n": n, "dw": dw, "al": al, "attach": att,
                                 "trg": [TRG[rnd.randrange(3)] for _ in range(n)], "montrg": TRG[rnd.randrange(3)]})
+                    if len(out) % 5 == 3 and n > 1:
+                        out[-1]["names"] = "same" if len(out) % 10 == 3 else "none"
     # narrow buses: many-chunk (also non-power-of-two, padded) registers with few events
     for n, dw in ((5, 1), (3, 1), (7, 2), (5, 2), (7, 3), (4, 3)):
         for al in (0, 1, 2):
@@ -60,7 +62,9 @@ def configs(tier, seed):
 
 def maker(cfg):
     def make():
-        srcs = [event.Source(trigger=(event.Source.Trigger(t) if i % 2 else t), path=(f"s{i}",)) for i, t in enumerate(cfg["trg"])]
+        # source paths: distinct (default), all equal, or none at all (every input signal is then called "i")
+        path_of = {"same": lambda i: ("irq", "line"), "none": lambda i: ()}.get(cfg.get("names"), lambda i: (f"s{i}",))
+        srcs = [event.Source(trigger=(event.Source.Trigger(t) if i % 2 else t), path=path_of(i)) for i, t in enumerate(cfg["trg"])]
         em = event.EventMap()
         for s in srcs:
             em.add(s)
@@ -72,9 +76,21 @@ def maker(cfg):
         elif cfg["attach"] == "decoder":
             # (every other decoder attachment uses a decoder exactly as wide as the monitor: a single window that fills
             #  the decoder's whole address space)
-            dec = csr.Decoder(addr_width=mon.bus.addr_width + (1 if (cfg["n"] + cfg["al"]) % 2 else 0), data_width=cfg["dw"])
-            dec.add(mon.bus, name=("mon",))
+            sibs = 2 if (cfg["n"] + cfg["al"]) % 4 == 1 else 0
+            dec = csr.Decoder(addr_width=mon.bus.addr_width + (2 if sibs else (1 if (cfg["n"] + cfg["al"]) % 2 else 0)),
+                              data_width=cfg["dw"])
             m = Module()
+            for j in range(sibs):
+                # two other (write-only) register banks share the decoder; the monitor is its third, last window
+                from .mux import StubReg
+                from amaranth_soc.memory import MemoryMap
+                smm = MemoryMap(addr_width=1, data_width=cfg["dw"])
+                sreg = StubReg(cfg["dw"], "w")
+                smm.add_resource(sreg, name=(f"cmd{j}",), size=1)
+                smux = csr.Multiplexer(smm)
+                dec.add(smux.bus, name=(f"bank{j}",))
+                m.submodules[f"bank{j}"] = smux
+            dec.add(mon.bus, name=("mon",))
             m.submodules.dec = dec
             m.submodules.mon = mon
             top, bus, mm = m, dec.bus, dec.bus.memory_map
